@@ -443,6 +443,11 @@ class CallMixin:
             return [(SLit('list', list(v.items)), st)]
         raise Unsupported('list(%r)' % (v,))
 
+    def bi_super(self, args, kwargs, st, node):
+        if args or 'self' not in st.locals:
+            raise Unsupported('super(...) with arguments')
+        return [(SFunc('superobj', st.locals['self']), st)]
+
     def bi_hash(self, args, kwargs, st, node):
         self.assumptions.add('opaque values are hashable (hash() neither raises nor has side effects)')
         return [(SInt(self.fresh(st, 'hash', z3.IntSort())), st)]
@@ -545,6 +550,24 @@ class CallMixin:
                 out.append((args[1] if len(args) > 1 else SNone(), s))
         return out
 
+    def dm_setdefault(self, d, args, kwargs, st, node):
+        cls = d.cls
+        s0 = st.copy()
+        k = self.coerce(s0, args[0], cls.k)
+        dflt = self.coerce(s0, args[1] if len(args) > 1 else SNone(), cls.v)      # the default is evaluated (allocated) first
+        self.on_field_access(s0, d, 'val', 'write', node)
+        out = []
+        for side, s in self.fork(s0, z3.Select(self.hload(s0, d, 'dom'), k), 'in'):
+            if side:
+                out.append((self.wrap(cls.v, z3.Select(self.hload(s, d, 'val'), k)), s))
+            else:
+                s = s.copy()
+                self.hstore(s, d, 'size', self.hload(s, d, 'size') + 1)
+                self.hstore(s, d, 'dom', z3.Store(self.hload(s, d, 'dom'), k, z3.BoolVal(True)))
+                self.hstore(s, d, 'val', z3.Store(self.hload(s, d, 'val'), k, dflt))
+                out.append((self.wrap(cls.v, dflt), s))
+        return out
+
     def dm_clear(self, d, args, kwargs, st, node):
         s = st.copy()
         self.on_field_access(s, d, 'val', 'write', node)
@@ -611,6 +634,7 @@ class CallMixin:
                     s = s.copy()
                     v = self.wrap(l.cls.e, z3.Select(self.hload(s, l, 'elems'), n - 1))
                     self.hstore(s, l, 'len', n - 1)
+                    s = self.apply_hints(s, 'list.pop', (l, v))
                     out.append((v, s))
                 else:
                     out.append((SExc('IndexError'), s))
